@@ -14,6 +14,22 @@ pub trait OutputMessage: Message + Clone {}
 #[verifier::external_body] #[verifier::reject_recursive_types(T)] pub struct BReceiver<T> { _p: core::marker::PhantomData<T> }
 #[verifier::external_body] #[verifier::reject_recursive_types(T)] pub struct BSender<T> { _p: core::marker::PhantomData<T> }
 pub enum RecvError { Closed, Lagged(u64) }
+impl<T> BSender<T> {
+    /// how many published values the channel retains for a receiver that is behind (tokio rounds the request UP to a power of two,
+    /// so this is a lower bound of the real buffer)
+    pub uninterp spec fn retains(&self) -> nat;
+}
+/// `tokio::sync::broadcast::channel(capacity)` (A-chan): a channel that retains at least `capacity` values per lagging receiver
+#[verifier::external_body]
+pub fn vx_broadcast_channel<T>(capacity: usize) -> (r: (BSender<T>, BReceiver<T>))
+    requires capacity > 0
+    ensures r.0.retains() >= capacity
+{ unimplemented!() }
+/// `RwLock::new(vec![])`
+#[verifier::external_body]
+pub fn vx_subs_lock_new(v: Vec<OutputPortSubscription>) -> SubsLock { unimplemented!() }
+/// the buffer the module documentation promises: "limited to 10 messages successively sent for each subscribed actor"
+pub spec const DOCUMENTED_BUFFER: nat = 10;
 pub assume_specification [<ActorStatus as PartialEq>::eq] (a: &ActorStatus, b: &ActorStatus) -> (r: bool)
     ensures r == (*a == *b);
 impl PartialEqSpecImpl for ActorStatus {
